@@ -131,6 +131,12 @@ def encode_to_dict(obj: Any, refs: Dict[int, Any]):
 
         refs[obj_id] = value
 
+        # The index is keyed by `id(obj)`, which is only unique among objects that are alive:
+        # we keep every indexed object alive for as long as the index is, so that a temporary
+        # object (e.g. the dict returned by `to_dict()` or `model_dump()`) that is freed cannot
+        # pass its id on to an object encoded later.
+        refs.setdefault("__indexed_objects", []).append(obj)
+
         return value
 
 
